@@ -3,16 +3,20 @@ use crate::core::Driver;
 
 pub mod c01;
 pub mod c02;
+pub mod c03;
+pub mod c10;
 pub mod c15;
 pub mod gdsgen;
 pub mod toy;
 
-pub const ALL: &[&str] = &["C01", "C02", "C15", "TOY"];
+pub const ALL: &[&str] = &["C01", "C02", "C03", "C10", "C15", "TOY"];
 
 pub fn registry(id: &str) -> Box<dyn Driver> {
     match id {
         "C01" => c01::driver(),
         "C02" => c02::driver(),
+        "C03" => c03::driver(),
+        "C10" => c10::driver(),
         "C15" => c15::driver(),
         "TOY" => toy::driver(),
         _ => panic!("MACHINERY: unknown property id {id}"),
